@@ -8,7 +8,7 @@ open Ops.C01 Ops.C05
 
 def fpi : Float := 3.141592653589793
 instance : BlurLike Float :=
-  ⟨fun x => if x == 0 then 1 else Float.sin (fpi * x) / (fpi * x), Float.exp, Float.sin, Float.cos, fpi⟩
+  ⟨fun x => if x == 0 then 1 else Float.sin (fpi * x) / (fpi * x), Float.exp, Float.sin, Float.cos, fpi, fun x => x == 0⟩
 instance : AbsLike CF Float := ⟨fun z => Float.sqrt (z.re * z.re + z.im * z.im)⟩
 
 def realArrOfJson (j : Json) : R (Arr Float) := do
